@@ -297,3 +297,44 @@ Proof.
   exists t'. repeat split; auto.
   eapply Proofs.NewickWf.parse_wf; eauto.
 Qed.
+
+(** * the boolean side conditions of Model/History.v imply the propositional ones *)
+Lemma distinct_tips_b_sound : forall re t, distinct_tips_b re t = true -> distinct_tips re t.
+Proof.
+  intros re t H. unfold distinct_tips_b in H. apply orb_true_iff in H as [H|H].
+  - left. exact H.
+  - right. apply has_dup_NoDup. now apply negb_true_iff in H.
+Qed.
+
+Lemma name_in_false : forall x l, Model.Prune.name_in x l = false -> ~ In x l.
+Proof. intros x l H HIn. apply name_in_In in HIn. congruence. Qed.
+
+Lemma side_b_sound : forall s t, side_b s t = true -> side s t.
+Proof.
+  intros [re o] t H. destruct o; unfold side_b in H; unfold side; cbn [snd fst] in *; try exact I.
+  - apply andb_true_iff in H as [D N]. apply Nat.leb_le in D. split; [exact D|].
+    intros ->. simpl in N. now apply distinct_tips_b_sound.
+  - apply andb_true_iff in H as [D N]. apply Nat.leb_le in D. split; [exact D|].
+    intros R. rewrite R in N. simpl in N. exact N.
+  - apply andb_true_iff in H as [H N]. apply andb_true_iff in H as [S D]. apply Nat.leb_le in D.
+    split; [exact S|]. split; [exact D|]. now apply distinct_tips_b_sound.
+  - exact H.
+  - apply andb_true_iff in H as [H G]. apply andb_true_iff in H as [D E]. apply Nat.leb_le in D.
+    split; [exact D|]. split.
+    + apply name_in_false. now apply negb_true_iff in E.
+    + apply Forall_forall. intros g Hg. rewrite forallb_forall in G.
+      apply name_in_false. specialize (G g Hg). now apply negb_true_iff in G.
+  - exact H.
+Qed.
+
+Lemma sides_b_sound : forall ops t, sides_b ops t = true -> sides ops t.
+Proof.
+  induction ops as [|s r IH]; intros t H; simpl in *; [exact I|].
+  apply andb_true_iff in H as [S R]. split; [now apply side_b_sound|].
+  intros t' E. rewrite E in R. now apply IH.
+Qed.
+
+(** the history theorem with decidable hypotheses *)
+Theorem history_wf_b : forall ops t0 t,
+  wf t0 = true -> sides_b ops t0 = true -> run ops t0 = Ok t -> wf t = true.
+Proof. intros ops t0 t W S H. eapply history_wf; eauto. now apply sides_b_sound. Qed.
